@@ -1,6 +1,9 @@
 package main
 
 import (
+	"io/ioutil"
+	"log"
+
 	"github.com/evolbioinfo/gotree/tree"
 )
 
@@ -34,6 +37,19 @@ func c05(c *Sexp) *Sexp {
 		t.RotateInternalNodes()
 	case "sort":
 		t.SortNeighborsByTips()
+	case "outgroup":
+		// RerootOutGroup logs a warning for a non-monophyletic outgroup; keep stderr quiet
+		log.SetOutput(ioutil.Discard)
+		operr = t.RerootOutGroup(c.Bool("remove"), c.Bool("strict"), c.StrList("names")...)
+		if operr != nil {
+			// the tree may be half modified when the function refuses: only the refusal is observed
+			return L(KV("err", A(errStr(operr))))
+		}
+	case "midpoint":
+		operr = t.RerootMidPoint()
+		if operr != nil {
+			return L(KV("err", A(errStr(operr))))
+		}
 	default:
 		return L(KV("panic", A("unknown op")))
 	}
